@@ -4,6 +4,8 @@ ENGINES = [
 ]
 ENGINES.append({"name": "rtc", "path": "cv/rtc", "serves_properties": ["C06", "C07", "C15", "C10", "C11", "C12", "C18"],
                 "kind_free_text": "run-time contracts (requires/old/ensures with named clauses) attached to the real functions of a scratch copy of the working tree, driven over exhaustively enumerated small scopes; the bounded stand-in, never counted as proved"})
+ENGINES.append({"name": "frames", "path": "cv/frames", "serves_properties": ["C16", "C17", "C20"],
+                "kind_free_text": "frame (modifies) contracts: static provenance analysis of every store site over the working tree's ASTs; substituted-pool frame monitor on the real task closures; z3 commutation lemma; exceptional-flow obligations"})
 NOTES = "Contract-based deductive verification; see DESIGN.md. Exit codes: 0 held, 1 VIOLATION, 2 undecided (solver instability on an unchanged obligation), 3 checker broken."
 NOT_APPLICABLE = {}
 CHECKS = {
@@ -66,5 +68,23 @@ CHECKS = {
         technique="run-time contracts on the real xcube statistics (and xfunc fill/bins) against a pure-NumPy per-cell oracle over an enumerated bounded scope (floating point is outside the deductive reach)",
         text="stddev, quantile, min, max, covariance and corrcoef of the array cube equal the per-cell textbook statistic (tolerance 1e-9 relative to the data scale), missing cells exactly by the C04 rule (+ fewer than two valid rows for sd, per-entry for matrices), NaN and (values, validity) formats agree; weighted quantile by its three stated laws. Intermediate contracts on every xfunc fill and on bins(). Bounded in input size.",
         note="Bounded scope (exhaustive fact vectors N<=4 over a 5-value grid incl. NaN, covering design over weight/policy/format factors, 0-2 dims). Cells whose valid weights sum to zero and correlation entries with a constant column are not compared (undefined).",
+    ),
+    "C16": dict(
+        engine="frames", category="other", design_ref="DESIGN.md §3, §6 C16",
+        technique="frame contracts per task (monitored on the real closures by a substituted pool) + z3-proved commutation lemma => every schedule; static store-site obligations; no schedule is explored",
+        text="Universal in schedules by non-interference, bounded in inputs: every task of every pooled evaluation in scope writes only its own block (O1), blocks are disjoint (O2), a task's block does not depend on other blocks (O3), no object attribute changes except diagnostics (O4); z3 proves tasks with O1-O3 commute; the monitored pooled result (tasks in reverse order) equals serial bit for bit; thorough tier also runs the real ThreadPool with sizes 1-16.",
+        note="Assumed: stores to distinct elements do not interfere, ThreadPool.map joins, n-task / bytecode-granularity lift of the lemma; channels outside the monitored regions and object attributes (NumPy C globals, warnings filters) are invisible. A deterministic scheduler is a different technique family and is not used.",
+    ),
+    "C17": dict(
+        engine="frames", category="other", design_ref="DESIGN.md §3, §6 C17",
+        technique="static frame proof: provenance analysis of every store / in-place / mutator / out= site on the real ASTs (all inputs) + run-time byte-snapshot frame contract and relational purity clauses (bounded)",
+        text="329 store-site obligations over 118 functions: no store reaches caller-owned memory, module-level state or (outside __init__) object attributes other than diagnostics, for all inputs. Bounded: byte snapshots of every argument around every aggregate of both cube types, repeat/re-use/permutation clauses, and the frame clauses of every iindex operation contract.",
+        note="Static analysis is modular and conservative (unknown provenance fails); assumes NumPy mutates only via out= and known mutators; array aliasing inside fresh containers is judged at run time only.",
+    ),
+    "C20": dict(
+        engine="frames", category="other", design_ref="DESIGN.md §2, §6 C20",
+        technique="exceptional-flow obligations on the real calculate()/fill_one_cube ASTs (all inputs) + fault enumeration: raise at every callback invocation index, every subset in pooled mode (bounded)",
+        text="Structural obligations: guarded callback is the first statement of each task and called nowhere else, no handler between it and the caller, only contextlib.closing as with-item, task invoked once per sub-cube from exactly the serial loop and pool.map, regions local to the call. Bounded: every invocation index (every subset with the real ThreadPool for <= 4 sub-cubes) raises -> that exception propagates; quiet callback consulted once per sub-cube; re-use afterwards equals a fresh evaluation.",
+        note="Pooled mode: which raised exception wins depends on the schedule (not explored); ThreadPool.map's re-raise is an assumption (exercised by the bounded part).",
     ),
 }
